@@ -27,9 +27,18 @@ Theorem C04_tie_value_covered_exact : forall fuel st v incl st' r,
 Proof. exact force_single_covers_exact. Qed.
 Print Assumptions C04_tie_value_covered_exact.
 
+(** In exact arithmetic the current code IS the model: for every grid (positive width), value and fuel >= 1 the translated
+    _force_bin_existence_single returns exactly the model's new binning and bin map — the loops added by the repair never
+    iterate.  Hence C04_value_is_covered, C04_grid_and_contents_kept ... (Props/C04.v) speak about the current source. *)
+Theorem C04_tie_code_is_model : forall fuel b v ir, 0 < f_w b -> (1 <= fuel)%nat ->
+  g_fw_force_bin_existence_single xarith fuel (embed b ir) (Fin v) (Some false) =
+  Done (embed (fst (force_single b v false)) ir, embed_ret (snd (force_single b v false))).
+Proof. exact gen_force_single_is_model. Qed.
+Print Assumptions C04_tie_code_is_model.
+
 Example C04_tie_example :
   g_fw_force_bin_existence_single xarith 10 (mk_fw 0 0 (Fin (mkq 1 2)) (Fin 0) true false) (Fin (mkq 7 4)) None
-  = Done (mk_fw 3 1 (Fin (mkq 1 2)) (Fin 0) true false, RTuple0) /\
+  = Done (mk_fw 3 1 (Fin (mkq 1 2)) (Fin 0) true false, OITuple0) /\
   g_fw_force_bin_existence_single xarith 10 (mk_fw 3 1 (Fin (mkq 1 2)) (Fin 0) true false) (Fin (qz (-1))) None
-  = Done (mk_fw (-2) 6 (Fin (mkq 1 2)) (Fin 0) true false, RInt 5).
+  = Done (mk_fw (-2) 6 (Fin (mkq 1 2)) (Fin 0) true false, OIInt 5).
 Proof. vm_compute. split; reflexivity. Qed.
